@@ -225,6 +225,32 @@ def build_doc(spec):
             for j in range(il.get("inputs", 0)):
                 ilist.input.append(neuroml.Input(id=j, target="../%s[%d]" % (il["pop"], 0), destination="synapses"))
             net.input_lists.append(ilist)
+        for cp in n.get("cprojs", []):
+            # cp["vary"]: "" | "pre" | "post" | "both"  (how the 2nd connection differs from the first)
+            proj = neuroml.ContinuousProjection(id=cp["id"], presynaptic_population=cp["pre"], postsynaptic_population=cp["post"])
+            for j in range(cp.get("conns", 2)):
+                vary = cp.get("vary", "") if j == 1 else ""
+                proj.continuous_connections.append(neuroml.ContinuousConnection(
+                    id=j, pre_cell="%d" % 0, post_cell="%d" % 0,
+                    pre_component="silent1" if vary in ("pre", "both") else "silent0",
+                    post_component="gs1" if vary in ("post", "both") else "gs0"))
+            net.continuous_projections.append(proj)
+        for ep in n.get("eprojs", []):
+            proj = neuroml.ElectricalProjection(id=ep["id"], presynaptic_population=ep["pre"], postsynaptic_population=ep["post"])
+            for j in range(ep.get("conns", 2)):
+                proj.electrical_connections.append(neuroml.ElectricalConnection(
+                    id=j, pre_cell="%d" % 0, post_cell="%d" % 0, synapse="gj1" if (j == 1 and ep.get("vary")) else "gj0"))
+            net.electrical_projections.append(proj)
+        for j in range(n.get("spaces", 0)):
+            net.spaces.append(neuroml.Space(id="space%d" % j))
+        for j in range(n.get("regions", 0)):
+            net.regions.append(neuroml.Region(id="region%d" % j, spaces="space0"))
+        for j in range(n.get("cell_sets", 0)):
+            net.cell_sets.append(neuroml.CellSet(id="cs%d" % j, select="all"))
+        for j in range(n.get("extracellular", 0)):
+            net.extracellular_properties.append(neuroml.ExtracellularPropertiesLocal(id="ext%d" % j))
+        if n.get("layout"):
+            net.populations[0].layout = neuroml.Layout(spaces="space0")
         for j in range(n.get("explicit_inputs", 0)):
             net.explicit_inputs.append(neuroml.ExplicitInput(target="%s[0]" % n["pops"][0]["id"], input="pg0"))
         for j in range(n.get("synaptic_connections", 0)):
@@ -251,6 +277,15 @@ def remove_cause(doc):
     for n in doc.networks:
         n.explicit_inputs = []
         n.synaptic_connections = []
+        n.spaces, n.regions, n.cell_sets, n.extracellular_properties = [], [], [], []
+        for pop in n.populations:
+            pop.layout = None
+        for cp in n.continuous_projections:
+            for c in cp.continuous_connections:
+                c.pre_component, c.post_component = "silent0", "gs0"
+        for ep in n.electrical_projections:
+            for c in ep.electrical_connections:
+                c.synapse = "gj0"
     doc.networks = doc.networks[:1]  # the HDF5 layout holds one network
     doc.morphology = []
 
@@ -281,6 +316,11 @@ def dump(o, depth=0):
             # an array backed list of the optimized representation IS what iterating it yields (its cursor is
             # iteration state: dead between iterations as long as every iteration starts by rewinding it)
             d["items"] = [dump(x, depth + 1) for x in o]
+        elif is_view_container(o):
+            # a list-like view computed from arrays (arraymorph.SegmentList ...): what iterating it yields; its own
+            # fields are caches / back references / iteration state
+            d["items"] = [dump(x, depth + 1) for x in o]
+            return d
         for k, v in sorted(vars(o).items()):
             if k in SKIP or v is None or (isinstance(v, list) and not v) or (k == "cursor" and isinstance(o, OptimizedList)):
                 continue
@@ -291,6 +331,12 @@ def dump(o, depth=0):
     if isinstance(o, np.generic):
         return o.item()
     return repr(type(o))
+
+
+def is_view_container(o):
+    t = type(o)
+    return (t.__module__ in ("neuroml.arraymorph",) and hasattr(t, "__getitem__") and hasattr(t, "__len__")
+            and not hasattr(t, "member_data_items_"))
 
 
 def jdump(o):
